@@ -14,6 +14,7 @@ import (
 	"fmt"
 	"math/rand"
 	"path"
+	"os"
 	"path/filepath"
 	"strings"
 	"time"
@@ -95,9 +96,10 @@ func init() {
 			if err := json.Unmarshal(raw, &a); err != nil {
 				return map[string]any{"bad": err.Error()}
 			}
-			return c06lib.RealApply(a)
+			return withHome(c06lib.RealApply(a))
 		},
-		DriverOp: "applyInclude",
+		DriverOp:   "applyInclude",
+		DriverArgs: argsWithHome,
 		Judge:    judgeModel,
 		Timeout:  60 * time.Second,
 	})
@@ -107,10 +109,11 @@ func init() {
 			if err := json.Unmarshal(raw, &a); err != nil {
 				return map[string]any{"bad": err.Error()}
 			}
-			return c06lib.RealApply(a)
+			return withHome(c06lib.RealApply(a))
 		},
-		DriverOp: "applyInclude",
-		Judge:    judgeSource,
+		DriverOp:   "applyInclude",
+		DriverArgs: argsWithHome,
+		Judge:      judgeSource,
 		Timeout:  60 * time.Second,
 	})
 	core.Register("c06.paste", &core.CheckDef{
@@ -125,6 +128,32 @@ func init() {
 		Timeout: 60 * time.Second,
 	})
 	core.RegisterProp("C06", runC06)
+}
+
+// withHome adds the home directory the real code sees (`~` expansion in paths) to a real outcome …
+func withHome(out any) any {
+	if m, ok := out.(map[string]any); ok {
+		if h, err := os.UserHomeDir(); err == nil && h != "" {
+			m["home"] = h
+		}
+	}
+	return out
+}
+
+// … and argsWithHome hands it to the model, which takes the home directory as a parameter of the world.
+func argsWithHome(args, real json.RawMessage) any {
+	var a map[string]json.RawMessage
+	if json.Unmarshal(args, &a) != nil {
+		return args
+	}
+	var r struct {
+		Home *string `json:"home"`
+	}
+	if json.Unmarshal(real, &r) == nil && r.Home != nil {
+		b, _ := json.Marshal(*r.Home)
+		a["home"] = b
+	}
+	return a
 }
 
 // judgeModel: the model and the real code must agree on the outcome (results structurally, errors by class).
@@ -333,6 +362,12 @@ func (g *gen) project(file, projDir string, depth int, chain []string, wdAbs boo
 		switch {
 		case where < 6:
 			childFile = path.Join(projDir, fmt.Sprintf("s%d", g.n), "inc.yaml")
+			if g.r.Intn(10) == 0 {
+				// a directory whose name a later resolution stage could misread: `~`, a remote-looking or a Windows-looking prefix
+				odd := []string{"~", "~u", "github.com", "C:", "git@h"}[g.r.Intn(5)]
+				childFile = path.Join(projDir, odd, fmt.Sprintf("s%d", g.n), "inc.yaml")
+				g.tag("odd-directory-name")
+			}
 		case where < 8:
 			childFile = path.Join(projDir, fmt.Sprintf("inc%d.yaml", g.n))
 		default:
@@ -982,6 +1017,62 @@ func streamPaste(ctx *core.Ctx) {
 				ents := []c06lib.Entry{{Paths: []string{"a/inc.yaml"}, ProjDir: "a"}, {Paths: []string{"b/deep/inc.yaml"}, ProjDir: "b/deep"}}
 				ctx.Add("c06.paste", pasteArgs(g, "compose.yaml", ents, map[string]string{"V": "pv"}, "accept", "identical"))
 				ctx.Add("c06.paste", pasteArgs(g, "compose.yaml", ents, map[string]string{"V": "pv"}, "paste", "identical"))
+			}
+		}
+	}
+
+	// 3b. a resource declared with an empty body (`front:` = null) on one side and defined with attributes on the
+	//     other is "defined differently": conflict error, whichever side the empty declaration is on, at depth 1 and
+	//     inside an included file; declared empty on both sides it is identical and accepted  (exhaustive; seed C06-4)
+	for _, kind := range c06lib.Kinds5[1:] {
+		for variant := 0; variant < 2; variant++ {
+			for style := 0; style < 2; style++ {
+				d1, d2 := diffPair(ctx.Rng, kind)
+				def := d1
+				if variant == 1 {
+					def = d2
+				}
+				section := func(v any) map[string]any { return map[string]any{"r": v} }
+				// (a) the including file declares it empty, the included file defines it
+				g := newGen(ctx, true)
+				g.s.AddYAML("a/inc.yaml", style, map[string]any{kind: section(def), "services": map[string]any{"sa": svc("x")}})
+				g.s.AddYAML("compose.yaml", 0, map[string]any{"include": []any{"a/inc.yaml"}, kind: section(nil), "services": map[string]any{"m": svc("m")}})
+				ctx.Count("paste:conflict-empty-own-vs-defined")
+				ctx.Add("c06.paste", pasteArgs(g, "compose.yaml", nil, map[string]string{"V": "pv"}, "error", "conflict-empty-own"))
+				// (b) symmetric: the included file declares it empty, the including file defines it
+				g = newGen(ctx, true)
+				g.s.AddYAML("a/inc.yaml", style, map[string]any{kind: section(nil), "services": map[string]any{"sa": svc("x")}})
+				g.s.AddYAML("compose.yaml", 0, map[string]any{"include": []any{"a/inc.yaml"}, kind: section(def), "services": map[string]any{"m": svc("m")}})
+				ctx.Count("paste:conflict-defined-own-vs-empty")
+				ctx.Add("c06.paste", pasteArgs(g, "compose.yaml", nil, map[string]string{"V": "pv"}, "error", "conflict-empty-included"))
+				// (c) the empty declaration sits in an intermediate included file, the definition one level deeper
+				g = newGen(ctx, true)
+				g.s.AddYAML("a/deep/d.yaml", style, map[string]any{kind: section(def), "services": map[string]any{"sd": svc("x")}})
+				g.s.AddYAML("a/inc.yaml", style, map[string]any{"include": []any{"deep/d.yaml"}, kind: section(nil), "services": map[string]any{"sa": svc("x")}})
+				g.s.AddYAML("compose.yaml", 0, map[string]any{"include": []any{"a/inc.yaml"}, "services": map[string]any{"m": svc("m")}})
+				ctx.Count("paste:conflict-empty-own-vs-defined-nested")
+				ctx.Add("c06.paste", pasteArgs(g, "compose.yaml", nil, map[string]string{"V": "pv"}, "error", "conflict-empty-own-nested"))
+				// (d) two included files, one declares it empty, the other defines it (both orders)
+				g = newGen(ctx, true)
+				g.s.AddYAML("a/inc.yaml", style, map[string]any{kind: section(nil), "services": map[string]any{"sa": svc("x")}})
+				g.s.AddYAML("b/inc.yaml", style, map[string]any{kind: section(def), "services": map[string]any{"sb": svc("y")}})
+				order := []any{"a/inc.yaml", "b/inc.yaml"}
+				if variant == 1 {
+					order = []any{"b/inc.yaml", "a/inc.yaml"}
+				}
+				g.s.AddYAML("compose.yaml", 0, map[string]any{"include": order, "services": map[string]any{"m": svc("m")}})
+				ctx.Count("paste:conflict-empty-vs-defined-two-includes")
+				ctx.Add("c06.paste", pasteArgs(g, "compose.yaml", nil, map[string]string{"V": "pv"}, "error", "conflict-empty-two-includes"))
+				// (e) control: declared empty on both sides (volumes and networks accept an empty body) — identical, accepted
+				if kind == "volumes" || kind == "networks" {
+					g = newGen(ctx, true)
+					g.s.AddYAML("a/inc.yaml", style, map[string]any{kind: section(nil), "services": map[string]any{"sa": svc("x")}})
+					g.s.AddYAML("compose.yaml", 0, map[string]any{"include": []any{"a/inc.yaml"}, kind: section(nil), "services": map[string]any{"m": svc("m")}})
+					ctx.Count("paste:identical-empty-both")
+					ents := []c06lib.Entry{{Paths: []string{"a/inc.yaml"}, ProjDir: "a"}}
+					ctx.Add("c06.paste", pasteArgs(g, "compose.yaml", ents, map[string]string{"V": "pv"}, "accept", "identical-empty"))
+					ctx.Add("c06.paste", pasteArgs(g, "compose.yaml", ents, map[string]string{"V": "pv"}, "paste", "identical-empty"))
+				}
 			}
 		}
 	}
